@@ -408,6 +408,26 @@ def run_sampling(case):
     from cobra.sampling import OptGPSampler
     model = build(case["spec"])
     out = {"analysis": "optgp", "runs": []}
+    if case.get("pin"):
+        # make the problem inhomogeneous: an equality user constraint with a non-zero right-hand side
+        # (half of the largest |flux| some reaction can carry); then a centre that is wrong by a scale
+        # factor is off the equality, which the next batch of the same sampler cannot hide
+        best = None
+        with model:
+            for r in model.reactions:
+                for d in ("max", "min"):
+                    model.objective = r
+                    model.objective_direction = d
+                    v = model.slim_optimize()
+                    if v == v and abs(v) > 1e-3 and abs(v) < 1e5 and (best is None or abs(v) > abs(best[1])):
+                        best = (r.id, v)
+        if best is None:
+            out["runs"] = [{"procs": run["procs"], "seed": run["seed"], "n": run["n"], "error": "nothing to pin",
+                            "valid_codes": None} for run in case["runs"]]
+            return out
+        r = model.reactions.get_by_id(best[0])
+        half = round(best[1] / 2, 3)
+        model.add_cons_vars([model.problem.Constraint(r.flux_expression, lb=half, ub=half, name="c14_pin")])
     for run in case["runs"]:
         frames = []
         err = None
@@ -420,6 +440,17 @@ def run_sampling(case):
                 if rep == 0:
                     v = s.validate(df)
                     valid = sorted(set(v.tolist()))
+                    # further batches on the SAME sampler object: the centre and the sample counter kept by the
+                    # parent process after a parallel batch must leave the sampler in a state from which the
+                    # next batch is valid again (an exception here is reported, not skipped)
+                    try:
+                        for _ in range(2):
+                            more = s.sample(run["n"])
+                            valid = sorted(set(valid) | set(s.validate(more).tolist()))
+                            if more.shape[0] != df.shape[0]:
+                                valid = sorted(set(valid) | {"rows:%d" % more.shape[0]})
+                    except Exception as e:  # noqa
+                        valid = sorted(set(valid) | {"later-batch %s: %s" % (type(e).__name__, str(e)[:80])})
             except Exception as e:  # noqa
                 err = "%s: %s" % (type(e).__name__, str(e)[:160])
                 break
@@ -516,6 +547,11 @@ def gen_cases(rng, tier):
         runs = [{"procs": p, "seed": rng.randint(1, 10 ** 6), "n": rng.choice([6, 9, 10]),
                  "thinning": rng.choice([3, 5])} for p in ([1, 2, 3] if tier == "quick" else [1, 2, 3, 5, 8])]
         cases.append({"id": cid, "spec": spec, "analysis": "optgp", "runs": runs})
+        cid += 1
+        # the same network made inhomogeneous, with n not a multiple of the process count
+        runs2 = [{"procs": p, "seed": rng.randint(1, 10 ** 6), "n": rng.choice([5, 7, 11]),
+                  "thinning": rng.choice([3, 5])} for p in ([2, 3] if tier == "quick" else [2, 3, 5, 8])]
+        cases.append({"id": cid, "spec": spec, "analysis": "optgp", "runs": runs2, "pin": True})
         cid += 1
     return cases
 
@@ -797,7 +833,7 @@ def main():
                 if not r["identical"]:
                     why = "two OptGP samplers with the same seed and process count returned different frames (max diff %g)" % r["maxdiff"]
                 elif r["valid_codes"] != ["v"]:
-                    why = "sampler.validate reports invalid samples: %s" % r["valid_codes"]
+                    why = "sampler.validate reports invalid samples (first or a later batch of the same sampler): %s" % r["valid_codes"]
                 elif r["shape"][0] != r["expected_rows"]:
                     why = "unexpected number of samples %s (expected %d)" % (r["shape"], r["expected_rows"])
                 if why:
